@@ -187,9 +187,19 @@ impl WireEncode for DpPath {
             Self::Standard(standard_path) => standard_path.wire_valid()?,
             Self::OneHop(onehop_path) => onehop_path.wire_valid()?,
             Self::Empty => {}
-            Self::Unsupported { path_type: _, data } => {
+            Self::Unsupported { path_type, data } => {
                 if !data.len().is_multiple_of(4) {
                     return Err("Path data must be a multiple of 4 bytes".into());
+                }
+
+                // The decoder interprets these path types itself, an unsupported path carrying
+                // one of them (or a non canonical `Other`) would be decoded as something else.
+                if matches!(
+                    path_type,
+                    PathType::Empty | PathType::Scion | PathType::OneHop
+                ) || PathType::from(u8::from(*path_type)) != *path_type
+                {
+                    return Err("Unsupported path must not use a supported path type".into());
                 }
             }
         }
